@@ -513,7 +513,7 @@ inline int harness_main(int argc, char **argv) {
   }
   signal(SIGALRM, on_alarm);
   runner.case_timeout = (unsigned)env_int("VERIF_CASE_TIMEOUT", 60);
-  alarm(runner.case_timeout);
+  if (mode == "rc" || mode == "enum") alarm(runner.case_timeout);  // replay/shrink children have their own guard
 
   if (mode == "rc") {
     int passed = verif_rc_run(rc_body, &runner, prop->maxlen);
@@ -581,6 +581,7 @@ inline int harness_main(int argc, char **argv) {
       return 0;
     }
     Result r;
+    alarm(0);
     if (jcase)
       prop->judge_json(*jcase, r);
     else {
